@@ -96,6 +96,11 @@ type Env struct {
 	Tables  map[string]map[string]*postab.Table
 	// BuildPanics are panics of the collectors during Build (reported by C01).
 	BuildPanics []*PanicInfo
+	// FreshPD makes every query obtain its own PathDecoder (Decoder.Path). The
+	// default is what a long-lived client does: one PathDecoder per path, reused
+	// for all queries (state kept on it between calls becomes observable).
+	FreshPD bool
+	pds     map[string]*decoder.PathDecoder
 }
 
 func LangPath(p string) lang.Path { return lang.Path{Path: p, LanguageID: "terraform"} }
@@ -383,9 +388,24 @@ func (e *Env) Run(q Query) (res Result) {
 		v, err := e.Dec.CodeLensesForFile(ctx, lp, q.File)
 		return Result{Value: v, Err: err}
 	}
-	d, err := e.Dec.Path(lp)
-	if err != nil {
-		return Result{PathErr: err, Err: err}
+	var d *decoder.PathDecoder
+	if !e.FreshPD && e.pds[q.Path] != nil && !e.WS.FailPaths[q.Path] {
+		d = e.pds[q.Path]
+		if q.MaxCandidates == 0 {
+			setMaxCandidates(d, 100) // the library's default
+		}
+	} else {
+		var err error
+		d, err = e.Dec.Path(lp)
+		if err != nil {
+			return Result{PathErr: err, Err: err}
+		}
+		if !e.FreshPD {
+			if e.pds == nil {
+				e.pds = map[string]*decoder.PathDecoder{}
+			}
+			e.pds[q.Path] = d
+		}
 	}
 	if q.MaxCandidates > 0 {
 		setMaxCandidates(d, q.MaxCandidates)
